@@ -143,6 +143,17 @@ func runC18Behaviour(ctx *Ctx) *Result {
 		res.Stats[fmt.Sprintf("history_length_%d", len(uniqueInts(bw.Versions)))]++
 		res.sig(bw.String())
 		builtinStatus := sts.Status
+		// the set's revisions as the upgrade helper left them (marker label set), by name
+		markedBefore := map[string]map[string]string{}
+		for _, rev := range world.RevisionsOf(w.Srv.Snap(), world.NS) {
+			if rev.Labels[helper.UpgradeToAdvancedStatefulSetAnn] == bw.Name {
+				l := map[string]string{}
+				for k, v := range rev.Labels {
+					l[k] = v
+				}
+				markedBefore[rev.Name] = l
+			}
+		}
 		for _, res := range []simapi.Res{simapi.Sets, simapi.Pods, simapi.PVCs, simapi.Revisions} {
 			w.Relist(res)
 		}
@@ -211,8 +222,15 @@ func runC18Behaviour(ctx *Ctx) *Result {
 			report("update-revision-not-the-adopted-one", fmt.Sprintf("status.updateRevision=%q, the built-in controller's update revision was %q", a.Status.UpdateRevision, builtinStatus.UpdateRevision))
 		}
 		for _, rev := range world.RevisionsOf(w.Srv.Snap(), world.NS) {
-			if rev.Labels[helper.UpgradeToAdvancedStatefulSetAnn] != bw.Name {
+			before, wasMarked := markedBefore[rev.Name]
+			if !wasMarked {
 				continue
+			}
+			// the label sync adds the template's labels; it takes none away (hash label, marker, anything else)
+			for k, v := range before {
+				if rev.Labels[k] != v {
+					report("label-sync-dropped-a-label", fmt.Sprintf("revision %s lost label %s=%s when it was label-synced and adopted (labels now %v)", rev.Name, k, v, rev.Labels))
+				}
 			}
 			c := world.ControllerOf(rev)
 			if c == nil || c.UID != a.UID {
